@@ -24,8 +24,10 @@ enum V {
     List(Vec<V>),
     Bytes(Vec<u8>),
     Vector(Vec<i64>),
-    /// finite stream given by its elements; `true` = written as a range `a to b`
-    Stream(Vec<V>, bool),
+    /// finite stream given by its elements; the code says how it is written: 0 = `lazy_map` over
+    /// indices, 1 = range `a to b`, >= 2 = `stream(seq)` (core.rs `WrappedVec`) over a list / string /
+    /// vector / bytes, possibly advanced past a consumed prefix (see `wrapped_parts`)
+    Stream(Vec<V>, u32),
     /// dictionary with these keys (generation order; the iteration order is observed at run time)
     Dict(Vec<V>),
 }
@@ -46,6 +48,36 @@ fn kind_of(v: &V) -> &'static str {
         V::Vector(_) => "vector",
         V::Stream(..) => "stream",
         V::Dict(_) => "dict",
+    }
+}
+
+/// decode a wrapped-stream code: (how it was advanced, base kind, length of the consumed prefix)
+/// how: 0 fresh, 1 `drop(s, n)`, 2 `tail(s)`, 3 `s drop (== sentinel)`, 4 `uncons(s)[1]`
+fn wrapped_parts(code: u32) -> (u32, u32, usize) {
+    let c = code - 2;
+    let (how, base, pl) = (c % 5, (c / 5) % 4, ((c / 20) % 3) as usize);
+    let plen = match how {
+        0 => 0,
+        1 | 3 => pl + 1,
+        _ => 1,
+    };
+    (how, base, plen)
+}
+/// the element that fills the consumed prefix (never occurs in generated data)
+fn sentinel(base: u32) -> V {
+    match base {
+        1 => V::Str("#".into()),
+        3 => V::Int(200),
+        _ => V::Int(777),
+    }
+}
+/// can these elements live in a sequence of that base kind (0 list, 1 string, 2 vector, 3 bytes)?
+fn base_ok(base: u32, xs: &[V]) -> bool {
+    match base {
+        0 => true,
+        1 => xs.iter().all(|x| matches!(x, V::Str(s) if s.chars().count() == 1)),
+        2 => xs.iter().all(|x| matches!(x, V::Int(_))),
+        _ => xs.iter().all(|x| matches!(x, V::Int(i) if (0..=255).contains(i))),
     }
 }
 
@@ -70,6 +102,13 @@ fn canon_v(v: &V, dict_orders: &[(Vec<V>, String)]) -> String {
         V::List(xs) => format!("[{}]", xs.iter().map(|x| canon_v(x, dict_orders)).collect::<Vec<_>>().join(",")),
         V::Bytes(b) => format!("b:{}", hex(b)),
         V::Vector(ns) => format!("v[{}]", ns.iter().map(|n| n.to_string()).collect::<Vec<_>>().join(",")),
+        V::Stream(xs, code) if *code >= 2 => {
+            // the model gets the whole underlying sequence and the read position
+            let (_, base, plen) = wrapped_parts(*code);
+            let mut all: Vec<String> = (0..plen).map(|_| canon_v(&sentinel(base), dict_orders)).collect();
+            all.extend(xs.iter().map(|x| canon_v(x, dict_orders)));
+            format!("w{}[{}]", plen, all.join(","))
+        }
         V::Stream(xs, _) => format!("stream[{}]", xs.iter().map(|x| canon_v(x, dict_orders)).collect::<Vec<_>>().join(",")),
         V::Dict(ks) => {
             for (k2, observed) in dict_orders {
@@ -113,7 +152,27 @@ fn src_v(v: &V, dict_vars: &[(Vec<V>, String)]) -> String {
         V::List(xs) => format!("[{}]", xs.iter().map(|x| src_v(x, dict_vars)).collect::<Vec<_>>().join(", ")),
         V::Bytes(b) => format!("B[{}]", b.iter().map(|x| x.to_string()).collect::<Vec<_>>().join(", ")),
         V::Vector(ns) => format!("V({})", ns.iter().map(|n| src_v(&V::Int(*n), dict_vars)).collect::<Vec<_>>().join(", ")),
-        V::Stream(xs, as_range) => {
+        V::Stream(xs, code) if *code >= 2 => {
+            let (how, base, plen) = wrapped_parts(*code);
+            let mut all: Vec<V> = (0..plen).map(|_| sentinel(base)).collect();
+            all.extend(xs.iter().cloned());
+            let lit = match base {
+                0 => src_v(&V::List(all), dict_vars),
+                1 => str_lit(&all.iter().map(|x| if let V::Str(s) = x { s.clone() } else { String::new() }).collect::<String>()),
+                2 => src_v(&V::Vector(all.iter().map(|x| if let V::Int(i) = x { *i } else { 0 }).collect()), dict_vars),
+                _ => src_v(&V::Bytes(all.iter().map(|x| if let V::Int(i) = x { *i as u8 } else { 0 }).collect()), dict_vars),
+            };
+            let st = format!("stream({})", lit);
+            match how {
+                0 => st,
+                1 => format!("drop({}, {})", st, plen),
+                2 => format!("tail({})", st),
+                3 => format!("({} drop (\\x -> x == {}))", st, src_v(&sentinel(base), dict_vars)),
+                _ => format!("uncons({})[1]", st),
+            }
+        }
+        V::Stream(xs, code) => {
+            let as_range = &(*code == 1);
             if xs.is_empty() {
                 "(1 til 1)".into()
             } else if *as_range {
@@ -375,9 +434,14 @@ fn parse_v(s: &str) -> Option<V> {
         }
         inner.split(',').map(|t| t.parse().ok()).collect::<Option<Vec<i64>>>().map(V::Vector)
     } else if let Some(r) = s.strip_prefix("stream[") {
-        items(r).map(|x| V::Stream(x, false))
+        items(r).map(|x| V::Stream(x, 0))
     } else if let Some(r) = s.strip_prefix("range[") {
-        items(r).map(|x| V::Stream(x, true))
+        items(r).map(|x| V::Stream(x, 1))
+    } else if let Some(r) = s.strip_prefix("wrapped") {
+        let digits: String = r.chars().take_while(|c| c.is_ascii_digit()).collect();
+        let code: u32 = digits.parse().ok()?;
+        let rest = r[digits.len()..].strip_prefix('[')?;
+        items(rest).map(|x| V::Stream(x, code.max(2)))
     } else if let Some(r) = s.strip_prefix("dict[") {
         items(r).map(V::Dict)
     } else if let Some(r) = s.strip_prefix('[') {
@@ -393,8 +457,9 @@ fn case_text(name: &str, args: &[A]) -> String {
     fn cv(v: &V) -> String {
         match v {
             V::Dict(ks) => format!("dict[{}]", ks.iter().map(cv).collect::<Vec<_>>().join(",")),
-            V::Stream(xs, true) => format!("range[{}]", xs.iter().map(cv).collect::<Vec<_>>().join(",")),
-            V::Stream(xs, false) => format!("stream[{}]", xs.iter().map(cv).collect::<Vec<_>>().join(",")),
+            V::Stream(xs, 1) => format!("range[{}]", xs.iter().map(cv).collect::<Vec<_>>().join(",")),
+            V::Stream(xs, 0) => format!("stream[{}]", xs.iter().map(cv).collect::<Vec<_>>().join(",")),
+            V::Stream(xs, code) => format!("wrapped{}[{}]", code, xs.iter().map(cv).collect::<Vec<_>>().join(",")),
             V::List(xs) => format!("[{}]", xs.iter().map(cv).collect::<Vec<_>>().join(",")),
             v => canon_v(v, &[]),
         }
@@ -520,9 +585,23 @@ fn gen_seq(rng: &mut Rng, kind: &str, profile: Profile, max_len: usize) -> V {
         _ => {
             if profile == Profile::Ints && rng.chance(1, 2) {
                 let a = rng.range(-2, 3);
-                V::Stream((0..n as i64).map(|i| V::Int(a + i)).collect(), n > 0)
+                V::Stream((0..n as i64).map(|i| V::Int(a + i)).collect(), if n > 0 { 1 } else { 0 })
             } else {
-                V::Stream(gen_elems(rng, n, profile), false)
+                // half of the remaining streams are `stream(seq)`, most of them already advanced
+                let xs = if rng.chance(1, 6) {
+                    (0..n).map(|_| V::Str(rng.pick(CHARS).to_string())).collect()
+                } else {
+                    gen_elems(rng, n, profile)
+                };
+                if rng.chance(3, 5) {
+                    let bases: Vec<u32> = (0..4).filter(|b| base_ok(*b, &xs)).collect();
+                    let base = *rng.pick(&bases);
+                    let how = if rng.chance(1, 6) { 0 } else { 1 + rng.below(4) as u32 };
+                    let pl = rng.below(3) as u32;
+                    V::Stream(xs, 2 + how + 5 * base + 20 * pl)
+                } else {
+                    V::Stream(xs, 0)
+                }
             }
         }
     }
@@ -653,6 +732,8 @@ struct Case {
     name: &'static str,
     args: Vec<A>,
     sorted: bool,
+    /// `Some(ops)`: the call is written as the chained infix expression `a0 op1 a1 op2 a2 …`
+    chain: Option<Vec<&'static str>>,
 }
 
 fn gen_case(rng: &mut Rng, which: usize, max_len: usize) -> Case {
@@ -660,7 +741,7 @@ fn gen_case(rng: &mut Rng, which: usize, max_len: usize) -> Case {
     let profile = pick_profile(rng);
     let s = gen_seq(rng, kind, profile, max_len);
     let sa = A::V(s.clone());
-    let mk = |name: &'static str, args: Vec<A>| Case { name, args, sorted: false };
+    let mk = |name: &'static str, args: Vec<A>| Case { name, args, sorted: false, chain: None };
     match which {
         0 => mk("filter", vec![sa, pred(rng, &s)]),
         1 => mk("reject", vec![sa, pred(rng, &s)]),
@@ -743,7 +824,7 @@ fn gen_case(rng: &mut Rng, which: usize, max_len: usize) -> Case {
             }
             _ => mk("group", vec![sa, relf(rng, &s)]),
         },
-        20 => Case { name: "group_all", args: vec![sa, keyf(rng, &s)], sorted: true },
+        20 => Case { name: "group_all", args: vec![sa, keyf(rng, &s)], sorted: true, chain: None },
         21 => mk("classify", vec![sa, keyf(rng, &s)]),
         22 => {
             let n = small_num(rng, &s);
@@ -784,6 +865,21 @@ fn gen_case(rng: &mut Rng, which: usize, max_len: usize) -> Case {
                 }
                 _ => {}
             }
+            // a third of the calls are written as a chained infix expression `a zip b zip c [with f]`
+            // (merged into one n-ary call by try_chain); some chains mix the two operators (no merge)
+            if rng.chance(2, 5) {
+                let has_f = matches!(args.last(), Some(A::F(..)));
+                let n_seq = args.len() - if has_f { 1 } else { 0 };
+                let other = if which == 27 { "ziplongest" } else { "zip" };
+                let mixed = rng.chance(1, 4);
+                let mut ops: Vec<&'static str> = (1..n_seq)
+                    .map(|_| if mixed && rng.chance(1, 2) { other } else { name })
+                    .collect();
+                if has_f {
+                    ops.push("with");
+                }
+                return Case { name: "chain", args, sorted: false, chain: Some(ops) };
+            }
             mk(name, args)
         }
         29 => {
@@ -817,7 +913,16 @@ fn gen_case(rng: &mut Rng, which: usize, max_len: usize) -> Case {
                     mk("**", vec![A::V(V::Int(rng.range(-1, 3))), A::V(a)])
                 }
                 2 => mk("**", vec![A::V(short(rng)), A::V(short(rng))]),
-                _ => mk("**", vec![A::V(short(rng)), A::V(short(rng)), A::V(short(rng))]),
+                _ => {
+                    // 3-4 factors; half of them checked against the chain-merging model
+                    let m = 3 + rng.below(2) as usize;
+                    let args: Vec<A> = (0..m).map(|_| { let k2 = pick_kind(rng); A::V(gen_seq(rng, k2, Profile::Ints, 2)) }).collect();
+                    if rng.chance(1, 2) {
+                        Case { name: "chain", args, sorted: false, chain: Some(vec!["**"; m - 1]) }
+                    } else {
+                        mk("**", args)
+                    }
+                }
             }
         }
         32 => {
@@ -891,14 +996,26 @@ const N_FAMILIES: usize = 42;
 /// hand-picked boundary cases (past findings first)
 fn corpus() -> Vec<Case> {
     let l = |xs: &[i64]| V::List(xs.iter().map(|x| V::Int(*x)).collect());
-    let mk = |name: &'static str, args: Vec<A>| Case { name, args, sorted: false };
+    let mk = |name: &'static str, args: Vec<A>| Case { name, args, sorted: false, chain: None };
     vec![
         mk("^^", vec![A::V(l(&[])), A::V(V::Int(0))]),                         // F21
         mk("^^", vec![A::V(V::Str("".into())), A::V(V::Int(0))]),
         mk("^^", vec![A::V(l(&[])), A::V(V::Int(2))]),
-        mk("drop", vec![A::V(V::Stream((1..=5).map(V::Int).collect(), true)), A::F("lt", Some(V::Int(3)))]), // F19
-        mk("drop", vec![A::V(V::Stream((1..=3).map(V::Int).collect(), true)), A::F("k0", None)]),
-        mk("drop", vec![A::V(V::Stream((1..=3).map(V::Int).collect(), true)), A::F("k1", None)]),
+        mk("drop", vec![A::V(V::Stream((1..=5).map(V::Int).collect(), 1)), A::F("lt", Some(V::Int(3)))]), // F19
+        mk("drop", vec![A::V(V::Stream((1..=3).map(V::Int).collect(), 1)), A::F("k0", None)]),
+        mk("drop", vec![A::V(V::Stream((1..=3).map(V::Int).collect(), 1)), A::F("k1", None)]),
+        // `stream(seq)` advanced past a prefix, then forced (seeded change C13-b2)
+        mk("sort", vec![A::V(V::Stream(vec![V::Int(3), V::Int(1), V::Int(2)], 2 + 1))]),
+        mk("reverse", vec![A::V(V::Stream(vec![V::Int(3), V::Int(1)], 2 + 2))]),
+        mk("filter", vec![A::V(V::Stream(vec![V::Int(3), V::Int(1)], 2 + 3)), A::F("k1", None)]),
+        mk("unique", vec![A::V(V::Stream(vec![V::Str("a".into()), V::Str("b".into())], 2 + 4 + 5))]),
+        mk("suffixes", vec![A::V(V::Stream(vec![V::Int(0), V::Int(2)], 2 + 1 + 15 + 20))]),
+        // chained infix forms (seeded change C13-a2)
+        Case { name: "chain", args: vec![A::V(l(&[1, 2, 3])), A::V(l(&[4, 5])), A::V(l(&[6]))], sorted: false, chain: Some(vec!["ziplongest", "ziplongest"]) },
+        Case { name: "chain", args: vec![A::V(l(&[10, 20])), A::V(l(&[1, 2])), A::V(l(&[5])), A::F("sub", None)], sorted: false, chain: Some(vec!["ziplongest", "ziplongest", "with"]) },
+        Case { name: "chain", args: vec![A::V(l(&[1, 2])), A::V(l(&[3, 4])), A::V(l(&[5, 6])), A::V(l(&[7]))], sorted: false, chain: Some(vec!["zip", "zip", "zip"]) },
+        Case { name: "chain", args: vec![A::V(l(&[1, 2])), A::V(l(&[3])), A::V(l(&[5, 6]))], sorted: false, chain: Some(vec!["ziplongest", "zip"]) },
+        Case { name: "chain", args: vec![A::V(l(&[1, 2])), A::V(l(&[3])), A::V(l(&[4, 5])), A::V(l(&[6]))], sorted: false, chain: Some(vec!["**", "**", "**"]) },
         mk("permutations", vec![A::V(l(&[]))]),                                  // F14
         mk("permutations", vec![A::V(l(&[1, 2, 3, 4]))]),
         mk("combinations", vec![A::V(l(&[1, 2])), A::V(V::Int(3))]),
@@ -957,7 +1074,17 @@ fn run_case(w: &mut Worker, c: &Case) -> (String, String, String, String) {
         dict_vars.push((ks.clone(), var));
         dict_orders.push((ks.clone(), order));
     }
-    let src = call_src(c.name, &c.args, &dict_vars);
+    let src = match &c.chain {
+        Some(ops) => {
+            let parts: Vec<String> = c.args.iter().map(|a| arg_src(a, &dict_vars)).collect();
+            let mut e = parts[0].clone();
+            for (op, p) in ops.iter().zip(parts[1..].iter()) {
+                e.push_str(&format!(" {} {}", op, p));
+            }
+            e
+        }
+        None => call_src(c.name, &c.args, &dict_vars),
+    };
     let (mut cls, detail) = w.eval(&src);
     if c.sorted {
         cls = sort_top(&cls);
@@ -966,10 +1093,21 @@ fn run_case(w: &mut Worker, c: &Case) -> (String, String, String, String) {
     if c.sorted {
         req.push_str("sorted! ");
     }
-    req.push_str(c.name);
-    for a in &c.args {
-        req.push(' ');
-        req.push_str(&arg_canon(a, &dict_orders));
+    match &c.chain {
+        Some(ops) => {
+            req.push_str("chain ");
+            req.push_str(&arg_canon(&c.args[0], &dict_orders));
+            for (op, a) in ops.iter().zip(c.args[1..].iter()) {
+                req.push_str(&format!(" {} {}", op, arg_canon(a, &dict_orders)));
+            }
+        }
+        None => {
+            req.push_str(c.name);
+            for a in &c.args {
+                req.push(' ');
+                req.push_str(&arg_canon(a, &dict_orders));
+            }
+        }
     }
     (format!("{}{}", setup, src), cls, detail, req)
 }
@@ -985,7 +1123,11 @@ fn key_of(c: &Case) -> String {
         })
         .unwrap_or("none");
     let has_f = c.args.iter().any(|a| matches!(a, A::F(..)));
-    format!("{}({}{})", c.name, kind, if has_f { ",f" } else { "" })
+    let name = match &c.chain {
+        Some(ops) => format!("chain:{}", ops.join(":")),
+        None => c.name.to_string(),
+    };
+    format!("{}({}{})", name, kind, if has_f { ",f" } else { "" })
 }
 
 fn main() {
@@ -1016,10 +1158,21 @@ fn main() {
                 Some(r) => (true, r),
                 None => (false, rest),
             };
+            const OPS: &[&str] = &["zip", "ziplongest", "with", "**"];
+            let (chain, rest): (Option<Vec<&'static str>>, &str) = match rest.strip_prefix("chain!") {
+                Some(r) => {
+                    let mut p = r.splitn(2, ' ');
+                    let ops = p.next().unwrap_or("");
+                    let ops: Vec<&'static str> =
+                        ops.split(',').filter_map(|o| OPS.iter().find(|x| **x == o).copied()).collect();
+                    (Some(ops), p.next().unwrap_or(""))
+                }
+                None => (None, rest),
+            };
             match parse_case(rest) {
                 Some((name, cargs)) => {
                     let name: &'static str = Box::leak(name.into_boxed_str());
-                    let c = Case { name, args: cargs, sorted };
+                    let c = Case { name, args: cargs, sorted, chain };
                     let (src, cls, detail, req) = run_case(&mut w, &c);
                     println!("source: {}", src);
                     println!("rust: {}   ({})", cls, detail);
@@ -1057,10 +1210,17 @@ fn main() {
                 A::V(v @ (V::List(_) | V::Str(_) | V::Bytes(_) | V::Vector(_) | V::Stream(..) | V::Dict(_))) => Some(v),
                 _ => None,
             })
-            .map(|v| (kind_of(v), len_of(v)))
+            .map(|v| (if matches!(v, V::Stream(_, c) if *c >= 2) { "stream(seq)" } else { kind_of(v) }, len_of(v)))
             .unwrap_or(("none", 0));
         rep.case(&req, first_kind.1 >= 2 || (first_kind.0 != "list" && first_kind.0 != "none"));
-        rep.arm(&format!("{}:{}", c.name, first_kind.0));
+        rep.arm(&format!(
+            "{}:{}",
+            match &c.chain {
+                Some(ops) => format!("chain {}", ops.join(" ")),
+                None => c.name.to_string(),
+            },
+            first_kind.0
+        ));
         rep.outcome(cls.split(' ').next().unwrap_or("?"));
         srcs.push((src, detail));
         rust.push(cls);
@@ -1072,7 +1232,14 @@ fn main() {
         let input = format!(
             "case: {}{}\nsource: {}\nrequest: {}\nrust-detail: {}",
             if cases[i].sorted { "sorted! " } else { "" },
-            case_text(cases[i].name, &cases[i].args),
+            format!(
+                "{}{}",
+                match &cases[i].chain {
+                    Some(ops) => format!("chain!{} ", ops.join(",")),
+                    None => String::new(),
+                },
+                case_text(cases[i].name, &cases[i].args)
+            ),
             srcs[i].0,
             reqs[i],
             srcs[i].1
